@@ -43,7 +43,12 @@ func genLayoutTree(c *core.Ctx, cfgIdx int) layoutCase {
 		if strings.HasPrefix(layoutName, "layouts/") && r.Intn(2) == 0 {
 			spelling = "~" + strings.TrimPrefix(layoutName, "layouts/")
 		}
-		stmts := []model.Stmt{model.Text{S: "junk before "}, model.Use{Name: spelling}, model.Text{S: "\n junk after use\n"}}
+		var useStmt model.Stmt = model.Use{Name: spelling}
+		if r.Intn(5) == 0 {
+			// the pinned test data writes @use and one-line inserts inside @if(true) as well
+			useStmt = model.If{Conds: []model.Expr{model.Lit{V: model.Bool(true)}}, Bodies: [][]model.Stmt{{model.Use{Name: spelling}}}}
+		}
+		stmts := []model.Stmt{model.Text{S: "junk before "}, useStmt, model.Text{S: "\n junk after use\n"}}
 		for _, rn := range reserves {
 			if r.Intn(4) == 0 {
 				continue // this reserve stays empty
@@ -52,7 +57,11 @@ func genLayoutTree(c *core.Ctx, cfgIdx int) layoutCase {
 			ig.data = g.data
 			switch r.Intn(4) {
 			case 0:
-				stmts = append(stmts, model.Insert{Name: rn, E: ig.expr(ig.anyKind(), 2)})
+				var ins model.Stmt = model.Insert{Name: rn, E: ig.expr(ig.anyKind(), 2)}
+				if r.Intn(4) == 0 {
+					ins = model.If{Conds: []model.Expr{model.Lit{V: model.Bool(true)}}, Bodies: [][]model.Stmt{{ins}}}
+				}
+				stmts = append(stmts, ins)
 			case 1:
 				stmts = append(stmts, model.Insert{Name: rn, Block: []model.Stmt{}})
 			default:
@@ -139,8 +148,15 @@ func init() {
 						stmts = append(stmts, model.Insert{Name: "r0", E: model.Lit{V: model.Int(1)}}, model.Insert{Name: "r0", Block: []model.Stmt{model.Text{S: "again"}}})
 					case 3: // the layout file does not exist
 						for k, s := range stmts {
-							if _, ok := s.(model.Use); ok {
+							switch n := s.(type) {
+							case model.Use:
 								stmts[k] = model.Use{Name: "layouts/ghost"}
+							case model.If:
+								if len(n.Bodies) == 1 && len(n.Bodies[0]) == 1 {
+									if _, ok := n.Bodies[0][0].(model.Use); ok {
+										stmts[k] = model.If{Conds: n.Conds, Bodies: [][]model.Stmt{{model.Use{Name: "layouts/ghost"}}}}
+									}
+								}
 							}
 						}
 					case 4: // the layout uses a layout
